@@ -312,3 +312,74 @@ func blScenarios(thorough bool) []*scenario {
 	}
 	return out
 }
+
+
+// ---------------------------------------------------------------------------
+// C04: memory-heavy scenarios on several NUMA layouts (nodes have 4 GiB unless stated)
+
+var (
+	tM3G   = &tmpl{name: "M3G", cpuReq: 500, cpuLim: 500, memLim: 3 * giB}
+	tM2G   = &tmpl{name: "M2G", cpuReq: 500, cpuLim: 500, memLim: 2 * giB}
+	tM5G   = &tmpl{name: "M5G", cpuReq: 500, cpuLim: 500, memLim: 5 * giB}
+	tBM3G  = &tmpl{name: "BM3G", cpuReq: 300, cpuLim: 1000, memLim: 3 * giB}
+	tBM6G  = &tmpl{name: "BM6G", cpuReq: 300, cpuLim: 1000, memLim: 6 * giB}
+	tG1M1G = &tmpl{name: "G1M1G", cpuReq: 1000, cpuLim: 1000, memLim: 1 * giB}
+)
+
+func machinePMEM() *sysgen.Spec {
+	return &sysgen.Spec{Name: "1s2n2c2t+2pmem", Packages: 1, NodesPerDie: 2, CoresPerNode: 2, Threads: 2,
+		Extras: []sysgen.Extra{{MemKB: 8 << 20, CloseTo: []int{0}}, {MemKB: 8 << 20, CloseTo: []int{1}}}}
+}
+
+func machineHBM() *sysgen.Spec {
+	return &sysgen.Spec{Name: "1s2n2c2t+hbm", Packages: 1, NodesPerDie: 2, CoresPerNode: 2, Threads: 2,
+		Extras: []sysgen.Extra{{MemKB: 1 << 20, CloseTo: []int{0, 1}}}}
+}
+
+func machineMovable() *sysgen.Spec {
+	return &sysgen.Spec{Name: "2s1n2c2t-movable", Packages: 2, NodesPerDie: 1, CoresPerNode: 2, Threads: 2,
+		MovableNodes: []int{1}, NodeMemKB: map[int]int64{0: 4 << 20, 1: 6 << 20}}
+}
+
+func machineAsym() *sysgen.Spec {
+	return &sysgen.Spec{Name: "2s2n2c1t-asym", Packages: 2, NodesPerDie: 2, CoresPerNode: 2, Threads: 1,
+		NodeMemKB: map[int]int64{0: 2 << 20, 1: 6 << 20, 2: 4 << 20, 3: 1 << 20}}
+}
+
+func c04Scenarios(thorough bool) []*scenario {
+	var out []*scenario
+	add := func(name, pol string, m *sysgen.Spec, cfgs []cfgSpec, ps []podSpec, mn menu) *scenario {
+		s := &scenario{name: name, policy: pol, machine: m, cfgs: cfgs, pods: ps, menu: mn, depth: 5, maxInc: 1}
+		if thorough {
+			s.depth = 6
+		}
+		s.prefix = runAll(len(ps))
+		out = append(out, s)
+		return s
+	}
+	std := []cfgSpec{taCfg("rsv750m")}
+	lm := menu{stop: true, remove: true}
+	pmemAnn := map[string]string{annMemType: "dram,pmem"}
+	add("ta/mem/2dram/M3G-M3G-BM3G", polTA, machine8(), std, pods(tM3G, tM3G, tBM3G), lm)
+	add("ta/mem/2dram/M5G-M2G-BE", polTA, machine8(), std, pods(tM5G, tM2G, tBE), lm)
+	add("ta/mem/4dram/M3G-M3G-M3G-BM6G", polTA, machine16(), std, pods(tM3G, tM3G, tM3G, tBM6G), lm)
+	add("ta/mem/pmem/M3G-M5G(pmem)-BM6G(pmem)", polTA, machinePMEM(), std,
+		[]podSpec{pod1("a", "default", "Guaranteed", tM3G, nil), pod1("b", "default", "Guaranteed", tM5G, pmemAnn), pod1("c", "default", "Burstable", tBM6G, pmemAnn)}, lm)
+	add("ta/mem/hbm/M3G-M2G-G1M1G", polTA, machineHBM(), std, pods(tM3G, tM2G, tG1M1G), lm)
+	add("ta/mem/movable/M3G-M3G-BM3G", polTA, machineMovable(), std, pods(tM3G, tM3G, tBM3G), lm)
+	add("ta/mem/asym/M3G-M2G-M5G", polTA, machineAsym(), std, pods(tM3G, tM2G, tM5G), lm)
+	// balloons
+	memBl := []*blcfg.BalloonDef{
+		{Name: "mem", Namespaces: []string{"mem"}, MinCpus: 1, MaxCpus: 2, PreferNewBalloons: true},
+		{Name: "two", Namespaces: []string{"two"}, MinCpus: 1, MaxBalloons: 1},
+	}
+	add("bl/mem/2dram/M3G-M3G-BM3G", polBalloons, machine8(), []cfgSpec{blCfg("mem", memBl)},
+		[]podSpec{nsPod("a", "mem", tM3G, nil), nsPod("b", "mem", tM3G, nil), nsPod("c", "two", tBM3G, nil)}, lm)
+	add("bl/mem/pmem/M5G-M3G(pmem)-BM6G", polBalloons, machinePMEM(), []cfgSpec{blCfg("mem", memBl)},
+		[]podSpec{nsPod("a", "mem", tM5G, nil), nsPod("b", "mem", tM3G, pmemAnn), nsPod("c", "two", tBM6G, nil)}, lm)
+	if thorough {
+		add("bl/mem/asym/M3G-M2G-M5G", polBalloons, machineAsym(), []cfgSpec{blCfg("mem", memBl)},
+			[]podSpec{nsPod("a", "mem", tM3G, nil), nsPod("b", "two", tM2G, nil), nsPod("c", "two", tM5G, nil)}, lm)
+	}
+	return out
+}
